@@ -71,7 +71,7 @@ func (c *effCtx) ofFunc(fn *ssa.Function) *Effects {
 			return c.ofContract(fc, externKey(fn), fnTypes(fn)...)
 		}
 	}
-	if fn.Blocks == nil {
+	if fn.Blocks == nil || fn.Pkg == nil || !strings.HasPrefix(fn.Pkg.Pkg.Path(), ModulePath) {
 		return c.ofExternal(fn)
 	}
 	// a contract with a frame (or `pure`) summarises the body
@@ -86,7 +86,12 @@ func (c *effCtx) ofFunc(fn *ssa.Function) *Effects {
 			for _, p := range fn.Params {
 				names = append(names, p.Name())
 			}
-			e := c.ofContractNamed(fc, FuncKey(fn), names, fnParamTypes(fn))
+			ptys := fnParamTypes(fn)
+			for _, fv := range fn.FreeVars {
+				names = append(names, fv.Name())
+				ptys = append(ptys, fv.Type())
+			}
+			e := c.ofContractNamed(fc, FuncKey(fn), names, ptys)
 			c.memo[fn] = e
 			return e
 		}
@@ -161,6 +166,16 @@ func staticType(ex Expr, names []string, ptypes []types.Type) types.Type {
 		if obj != nil {
 			return obj.Type()
 		}
+	case *Unary:
+		if n.Op == "*" {
+			t := staticType(n.X, names, ptypes)
+			if t == nil {
+				return nil
+			}
+			if pt, ok := t.Underlying().(*types.Pointer); ok {
+				return pt.Elem()
+			}
+		}
 	case *Index:
 		t := staticType(n.X, names, ptypes)
 		if t == nil {
@@ -184,6 +199,11 @@ func (c *effCtx) ofContractNamed(fc *FuncContract, what string, names []string, 
 	if mc := fc.Mod(c.profile); mc != nil {
 		if !fc.NoAlloc {
 			e.AllocAll = true
+		}
+		if mc.Since != nil {
+			e.All = true
+			e.Why = "modifies since(...) of " + what
+			return e
 		}
 		for _, m := range mc.Exprs {
 			t := staticType(m, names, ptypes)
